@@ -240,4 +240,7 @@ Qed.
 Example history_example :
   exists dec0, lzma_decoder_new (mkParams (mkProps 3 0 2) 4096 (Some 1)) None = Done dec0 /\
     DecWf (fold_left do_rop [RDecompress big_fuel (cursor_of [0;0;0;0;0]) vec_sink; RDecompress big_fuel (cursor_of [0;0;0]) vec_sink; RReset (Some None)] dec0).
-Proof. eexists. split; [reflexivity|]. apply history_wf. eapply new_wf. reflexivity. Qed.
+Proof.
+  eexists. split; [vm_compute; reflexivity|]. apply history_wf.
+  eapply (new_wf (mkParams (mkProps 3 0 2) 4096 (Some 1)) None). vm_compute. reflexivity.
+Qed.
